@@ -212,8 +212,32 @@ def h_repeated(ctx, cfg):
   one("call3", f1, b1, a1)
 
 
+def h_exact_types(ctx, cfg):
+  """Exact inputs give exact outputs: integer coefficients (their str() is an integer literal) with Fraction samples,
+  memory and zero - every output is again an exact rational (not a float) and the identity holds exactly.  Concrete
+  typed values (a typed-values clause); the case split is over the input length."""
+  from fractions import Fraction
+  b, a = cfg["b"], cfg["a"]
+  N = ctx.split("N", 0, 4)
+  x = [Fraction(3 * i - 4, 7) for i in range(N)]; zero = Fraction(2, 5); mem = [Fraction(1, 3 + j) for j in range(len(a) - 1)]
+  filt = _build("lists", list(b), list(a))
+  out = list(filt(list(x), memory=list(mem) if cfg["mem"] else None, zero=zero))
+  ctx.prove(len(out) == N, "one-output-per-input")
+  ctx.prove(all(isinstance(v, (Fraction, int)) and not isinstance(v, bool) for v in out), "exact-inputs-give-exact-outputs",
+            "outputs of types %r" % ([type(v).__name__ for v in out],))
+  for n in range(len(out)):
+    acc = 0
+    for k, c in enumerate(b): acc = acc + c * (x[n - k] if n - k >= 0 else zero)
+    for k, c in enumerate(a):
+      if k == 0: continue
+      acc = acc - c * (out[n - k] if n - k >= 0 else (mem[k - n - 1] if cfg["mem"] else zero))
+    ctx.prove(a[0] * out[n] == acc, "difference-equation", "exactly, n=%d: %r" % (n, out[n]))
+
+
 def tasks(tier, seed):
   T = []
+  for b, a in (([1], [3]), ([2, -1], [5]), ([1], [3, 1]), ([2, 1], [-7, 2, 1]), ([1, 1], [10, -3]), ([3], [1]), ([1], [-1, 2])):
+    T.append(("h_exact_types", {"b": b, "a": a, "mem": len(a) > 1}))
   for nb, na, mem in ((1, 1, False), (2, 1, False), (1, 2, True), (2, 2, True)):
     T.append(("h_repeated", {"nb": nb, "na": na, "N": 2, "mem": mem}))
   for nb, na in ((1, 1), (2, 2), (0, 1)):
